@@ -256,6 +256,36 @@ func (r *Runner) execMacro(a Action) {
 			}
 		}
 		r.exec(Action{Op: "heal"})
+	case "cfgrestart":
+		// a membership change, a few settled writes, every server restarts; the
+		// new leader snapshots; everything restarts again (what survives is the
+		// configuration the snapshots and logs durably carry)
+		li, L := r.leader()
+		if L == nil {
+			return
+		}
+		kind := []string{"addnonvoter", "demote", "addvoter", "remove"}[a.Arg%4]
+		member := 0
+		if len(a.Set) > 0 {
+			member = a.Set[0] % len(r.ids)
+		}
+		if member == li && (kind == "remove" || kind == "demote") {
+			member = (member + 1) % len(r.ids)
+		}
+		r.doMembership(L, kind, member, 0)
+		w.Advance(40*time.Millisecond, r.sample)
+		for k := 0; k < a.N; k++ {
+			r.doApply(L, 1, 0)
+			w.Advance(25*time.Millisecond, r.sample)
+		}
+		r.exec(Action{Op: "restartall"})
+		w.Advance(r.maxHB()*4+100*time.Millisecond, r.sample)
+		if _, L2 := r.leader(); L2 != nil {
+			r.doSnapshot(L2)
+			w.Advance(40*time.Millisecond, r.sample)
+			r.feat("snapshot-by-leader-restarted-after-membership-change")
+		}
+		r.exec(Action{Op: "restartall"})
 	case "aftershutdown":
 		// every API call on a server whose Shutdown completed
 		in := r.live(r.resolve(a.Srv))
